@@ -86,7 +86,9 @@ func (p *Program) threadGuard(g Guard, depth int) []Guard {
 						n++
 					}
 				}
-				if n == 1 {
+				// (not through a back edge: what held when the previous iteration computed the
+				// value is about that iteration's loop variables, not the current ones)
+				if n == 1 && !phi.Block().Dominates(phi.Block().Preds[idx]) {
 					if _, isConst := phi.Edges[idx].(*ssa.Const); !isConst {
 						out = append(out, Guard{If: g.If, Cond: phi.Edges[idx], Pol: pol})
 					}
@@ -792,6 +794,11 @@ func (tb *TB) FactsAt(b *ssa.BasicBlock) []Atom {
 func (tb *TB) FactsAtRaw(b *ssa.BasicBlock) []Atom {
 	var out []Atom
 	for _, g := range tb.p.guardsAt(b) {
+		// a constant condition (the copy of a test behind `result = true` in a spliced
+		// predicate) says nothing
+		if c, isConst := g.Cond.(*ssa.Const); isConst && c.Value != nil && c.Value.Kind() == constant.Bool {
+			continue
+		}
 		out = append(out, tb.atomOf(g))
 	}
 	return out
